@@ -31,6 +31,7 @@ PROPERTY_MODULES = {
     'C13': ['contracts.c13_checks'],
     'C06': ['contracts.c06_units'],
     'C30': ['contracts.c30_cs_safe'],
+    'C25': ['contracts.c25_ks'],
 }
 
 # modules whose contracts may be used as callee contracts by any property
@@ -60,6 +61,7 @@ PROPERTY_ASSUMPTIONS = {
             'assumed: _iter_get_norm returns NaN or a value >= 0; _single_iteration and _run_apply neither raise nor modify solver control state'],
 }
 GAPS = {
+    'C25': ['KSfunction.compute/derivatives and KSComp.compute/compute_partials: bounded exhaustive tier only', 'exact gradients of jax ks_max/ks_min (jax AD)', 'exp overflow for huge rho*(g-m) is excluded by the shift but floats are treated as reals'],
     'C30': ['derivatives of the jax smooth helpers (jax AD)', 'second-order effects of a finite complex step', 'n-d arrays / axis argument of cs_safe.norm'],
     'C06': ['_find_unit / simplify_unit / SI prefixes: bounded exhaustive tier only (regex + eval are outside the subset)', 'fractional powers in PhysicalUnit.__pow__', 'has_val_mismatch', 'the numeric content of unit_library.ini'],
     'C13': ['Subjac.set_col family: bounded exhaustive tier only (not proved)', 'directional derivative checks (directional_fd_fwd / directional_fwd_rev branches)', '_MagnitudeData bookkeeping values', 'deriv_display text rendering', 'which arrays check_partials/check_totals pass in as J_fwd/J_rev/J_fd'],
@@ -135,3 +137,56 @@ def json_key(f):
 
 
 EXTRA_TIERS['C06'] = _c06_extra
+
+
+def run_lean(theorems):
+    """Compile lean/OmLemmas.lean (Lean 4 + Mathlib) and count the named theorems as discharged
+    lemma obligations.  `sorry` / `axiom` anywhere in the file is a checker error."""
+    import subprocess, os, re, time
+    here = os.path.dirname(os.path.dirname(os.path.abspath(__file__)))
+    path = os.path.join(here, 'lean', 'OmLemmas.lean')
+    src = open(path).read()
+    out = {'obligations': 0, 'discharged': 0, 'errors': [], 'lean': {}}
+    code = re.sub(r'/-.*?-/', '', src, flags=re.S)
+    code = re.sub(r'--.*', '', code)
+    if re.search(r'\bsorry\b|\baxiom\b|\badmit\b', code):
+        out['errors'].append('lean/OmLemmas.lean contains sorry/axiom/admit')
+        return out
+    missing = [t for t in theorems if not re.search(r"theorem\s+%s(?![A-Za-z0-9_'])" % re.escape(t), code)]
+    if missing:
+        out['errors'].append('lean lemmas missing: %s' % missing)
+        return out
+    t0 = time.time()
+    try:
+        p = subprocess.run(['lean', path], capture_output=True, text=True, timeout=1500, cwd=os.path.join(here, 'lean'))
+    except Exception as e:
+        out['errors'].append('lean could not run: %r' % e)
+        return out
+    ok = p.returncode == 0 and 'error' not in (p.stdout + p.stderr)
+    out['obligations'] = len(theorems)
+    out['discharged'] = len(theorems) if ok else 0
+    out['lean'] = {'file': 'lean/OmLemmas.lean', 'theorems': list(theorems), 'backend': 'Lean 4.33.0 + Mathlib',
+                   'seconds': round(time.time() - t0, 1), 'ok': ok, 'output': (p.stdout + p.stderr)[-600:]}
+    if not ok:
+        out['errors'].append('lean rejected OmLemmas.lean: ' + (p.stdout + p.stderr)[-400:])
+    return out
+
+
+def _c25_extra(tier, seed, native_run):
+    out = run_lean(['sum_unit_interval', 'ks_bracket', 'ks_shift', 'sum_ext\'', 'sum_scale'])
+    out['violations'] = []
+    r = _run_bounded('c25_kscomp.py', [tier])
+    if 'error' in r:
+        out['errors'].append('bounded KSComp tier could not run: ' + r['error'])
+        return out
+    out['bounded_kscomp'] = {
+        'note': 'BOUNDED stand-in (not counted in obligations): NumPy KSfunction/KSComp (2-d axis reductions) incl. upper / lower_flag / minimum and partials vs complex step',
+        'bound': 'width<=3, vec_size<=2, rows = all tuples over a value set with ties and 1e4 magnitudes, rho in {0.5,50,1e3}, upper in {0,1.5}, flags',
+        'evaluations': r['evaluations'], 'distinct_nontrivial': r['distinct_nontrivial'], 'exhaustive': True,
+        'failures': r['n_failures'], 'samples': r['samples']}
+    for f in r['failures'][:3]:
+        out['violations'].append(dict(f, what='KSComp: ' + f['kind'], witness_id='c25-%s' % json_key(f)))
+    return out
+
+
+EXTRA_TIERS['C25'] = _c25_extra
